@@ -8,7 +8,16 @@ import collections
 
 import serial
 
+import errno as _errno
+
 EXCEPTIONS = {
+    # OS-level errors with the errno values a POSIX serial backend treats as "try again" - for a caller of
+    # readline()/write() they are I/O exceptions like any other
+    "OSError(EAGAIN)": lambda: OSError(_errno.EAGAIN, "Resource temporarily unavailable"),
+    "OSError(EINTR)": lambda: OSError(_errno.EINTR, "Interrupted system call"),
+    "BlockingIOError": lambda: BlockingIOError(_errno.EWOULDBLOCK, "would block"),
+    "InterruptedError": lambda: InterruptedError(_errno.EINTR, "interrupted"),
+    "SerialException(EAGAIN)": lambda: serial.SerialException(_errno.EAGAIN, "read failed: try again"),
     "SerialException": lambda: serial.SerialException("injected"),
     "SerialTimeoutException": lambda: serial.SerialTimeoutException("injected write timeout"),
     "PortNotOpenError": lambda: serial.serialutil.PortNotOpenError(),
@@ -17,6 +26,11 @@ EXCEPTIONS = {
     "RuntimeError": lambda: RuntimeError("injected"),
 }
 SERIAL_FAMILY = ["SerialException", "SerialTimeoutException", "PortNotOpenError"]
+# error lines as the firmware words them (EBB command documentation)
+ERROR_LINES = ["!8 Err: injected device error", "!0 Err: <text>", "!2 Err: TX Buffer overrun", "!3 Err: RX Buffer overrun",
+               "!4 Err: Missing parameter(s)", "!5 Err: Need comma next, found: 'x'", "!6 Err: Invalid parameter value",
+               "!7 Err: Extra parameter", "!8 Err: Unknown command 'ZZ:5A5A'", "!5 Err: Parameter outside allowed range",
+               "!1 Err: Checksum incorrect, expected 123", "Err: bare error text", "!13 Err: buffer overrun (lower case)"]
 ALL_EXC = list(EXCEPTIONS)
 
 
@@ -87,7 +101,8 @@ class FakePort:
                 for _ in range(action[1]):
                     self.rx.appendleft(b"")
             elif kind == "errline":
-                self._replace_next(b"!8 Err: injected device error\r\n")
+                text = action[1] if len(action) > 1 else "!8 Err: injected device error"
+                self._replace_next(text.encode("ascii") + b"\r\n")
             elif kind == "nameerr":
                 # reply that starts with the right name but carries an error text
                 self._replace_next(action[1])
@@ -129,8 +144,17 @@ class FakePort:
     def flushInput(self):  # noqa: N802  (pyserial 2 name used by ebb_serial.testPort)
         self.rx.clear()
 
+    @property
+    def in_waiting(self):
+        """Bytes sitting in the receive buffer (pyserial's Serial.in_waiting)."""
+        return sum(len(line) for line in self.rx)
+
+    def inWaiting(self):  # noqa: N802  (pyserial 2 spelling)
+        return self.in_waiting
+
     # attributes some code paths may touch (pyserial's Serial exposes the device name as .port / .name / .portstr)
     timeout = 1.0
+    write_timeout = None
     is_open = True
     port = "/dev/ttyACM0"
     name = "/dev/ttyACM0"
